@@ -172,9 +172,9 @@ theorem rows_facts (tuple : Bool) : ∀ rows : List (List (IntTy × Int)),
     refine ⟨?_, ?_, ?_⟩
     · simp only [rowsOps, List.map_cons, Writer.Op.validAll, Writer.Op.valid, Writer.Val.validList, Writer.Val.valid,
         Bool.and_eq_true]
-      exact ⟨⟨a1, rfl⟩, a⟩
+      exact ⟨⟨a1, trivial⟩, a⟩
     · simp only [rowsOps, List.map_cons, Writer.sepOK, Writer.Val.wordyList, Writer.Val.wordy, Bool.and_eq_true]
-      exact ⟨⟨b1, rfl⟩, b⟩
+      exact ⟨⟨b1, trivial⟩, b⟩
     · simp only [rowsOps, List.map_cons, Writer.opsLeaves, Writer.opLeaves, Writer.leavesList, Writer.leaves, d1, d,
         List.flatten_cons, List.map_append, List.append_nil]
 
@@ -299,7 +299,7 @@ example : ∃ s, Writer.runOps ⟨39, true⟩ [.out true [.str "hello".toUTF8, .
       (Reader.init 2 (bytewise (Writer.txt (Writer.drop s).sink)))
     = [.out (.val (.str "hello".toUTF8.data.toList)), .out (.val (.str "w0rld!".toUTF8.data.toList)), .out (.bool true)] := by
   obtain ⟨s, e, _, h⟩ := write_then_read_words ⟨39, true⟩ (by decide) [.out true [.str "hello".toUTF8, .str "w0rld!".toUTF8]]
-    (by decide) (by decide) ["hello".toUTF8, "w0rld!".toUTF8] (by decide)
+    (by decide) (by decide) ["hello".toUTF8, "w0rld!".toUTF8] rfl
   have hb := bytewise_spec (Writer.txt (Writer.drop s).sink)
   exact ⟨s, e, h _ hb.2 hb.1 2 (by decide) _ (by rw [hb.1]; exact Nat.lt_succ_self _)⟩
 
